@@ -61,6 +61,12 @@ def _run_props(res, ctx):
                         txt = "# nosec" if mode == "bare" or (mode == "mixed" and rng.random() < .5) else "# nosec " + rng.choice(["B101", "B602", "B105", "B404", "B301", "B108", "B603", "B001", "B403", "B001, B101", "pickle", "import_subprocess", "B001: reviewed"])
                         lines[k] += "  " + txt
             src = "\n".join(lines)
+            # the SAME test firing twice on ONE commented line (nested calls): both withheld findings are counted (seeded change C12-m22 counted a
+            # (test, line) pair once)
+            if mode in ("bare", "mixed"):
+                src += "import pickle as pk_\ndup_a = pk_.loads(pk_.loads(b_))  # nosec\ndup_b = eval(eval(x_), eval(y_))  # nosec\n"
+            if mode in ("specific", "mixed"):
+                src += "import pickle as pq_\ndup_c = pq_.loads(pq_.loads(b_))  # nosec B301\ndup_d = eval(eval(x_), eval(y_))  # nosec B307, B102\n"
             vs = variants(rng, src)
             datas = [v[1] for v in vs]
             real = C.batch_real_scan(scratch, datas)
